@@ -1,16 +1,14 @@
 #!/usr/bin/env bash
 # Run once after a fresh restore (offline): warm the Go build cache for the
-# harness + repository packages and the wazero compilation cache for SQLite.
+# harness + repository packages (every worker is built once, so each later
+# ./vcheck is an incremental rebuild) and create the scratch/cache directories.
 set -u
 ROOT="$(cd "$(dirname "${BASH_SOURCE[0]}")" && pwd)"
 cd "$ROOT"
 . tools/env.sh
 mkdir -p .build/bin .build/logs .build/overlay .cache/wazero evidence replays
 tools/mkoverlay.sh /repo .build/overlay-setup.json || exit 1
-( cd harness && go build -tags verif -overlay "$ROOT/.build/overlay-setup.json" -o /dev/null ./lab/... ) || exit 1
-# building every worker once makes each later ./vcheck an incremental rebuild
-for d in harness/cmd/*/; do
-  id="$(basename "$d")"
-  ( cd harness && go build -tags verif -overlay "$ROOT/.build/overlay-setup.json" -o "$ROOT/.build/bin/$id" "./cmd/$id" ) || echo "setup: warm build of $id failed (vcheck will report it)" >&2
-done
+( cd harness && go build -tags verif -overlay "$ROOT/.build/overlay-setup.json" ./lab/... ) || exit 1
+ids=$(ls harness/cmd | tr 'a-z' 'A-Z')
+printf '%s\n' $ids | VERIF_BUILD_ONLY=1 xargs -P 4 -I{} sh -c './vcheck {} quick >/dev/null 2>&1 || echo "setup: warm build of {} failed (vcheck will report it)" >&2'
 echo "setup done"
